@@ -344,6 +344,23 @@ def edit_constant(parameterized):
     """
     kls_params = parameterized.param.objects(instance=False)
     inst_params = parameterized._param__private.params
+    if isinstance(parameterized, Parameterized) and parameterized._param__private.initialized:
+        # Only this object becomes editable: flip the Parameter objects that
+        # govern assignment on it (per-instance ones, created on demand),
+        # never the class-level flag the other instances rely on.
+        names = [pname for pname, pobj in (kls_params | inst_params).items() if pobj.constant]
+        updated = []
+        for pname in names:
+            pobj = parameterized.param[pname]
+            if pobj.constant:
+                pobj.constant = False
+                updated.append(pobj)
+        try:
+            yield
+        finally:
+            for pobj in updated:
+                pobj.constant = True
+        return
     # kls_params is the cached namespace, which is emptied when parameters
     # are added or copied into a subclass while the block is open
     kls_names = set(kls_params)
